@@ -6,7 +6,7 @@
 (* predicates - the same operator text TLC checks on the model - on every  *)
 (* observed step.  A predicate that is false on an observed step is a      *)
 (* violation of that property by the implementation; it is printed as      *)
-(*    <<"VIOL", line, run, step index, {names}>>                           *)
+(*    <<"VIOL", line, run, step index, name>>   (one line per predicate)  *)
 (* and the run continues, so every event of the file is judged.            *)
 (* "M_conf" (is the step one the implementation-shaped model allows?) is   *)
 (* diagnostic only and is reported as a NOTE by the checker.               *)
@@ -127,7 +127,7 @@ Judge(e) ==
         <<"M_ghost", \A d \in cl : post[d] = GState(g2[d]) >>
          >>
          bad == {checks[i][1] : i \in {j \in DOMAIN checks : ~checks[j][2]}}
-     IN /\ (bad # {} => PrintT(<<"VIOL", l, e.run, e.i, bad>>))
+     IN /\ (\A n_ \in bad : PrintT(<<"VIOL", l, e.run, e.i, n_>>))
         /\ nviol' = nviol + (IF bad = {} THEN 0 ELSE 1)
 
 Reset(e) ==
@@ -138,7 +138,7 @@ Reset(e) ==
   /\ issued' = {}
   /\ pex' = NullEx
   /\ cfg' = e.cfg
-  /\ (StOf(e) # [c \in DOMAIN e.st |-> Absent] => PrintT(<<"VIOL", l, e.run, e.i, {"M_reset"}>>))
+  /\ (StOf(e) # [c \in DOMAIN e.st |-> Absent] => PrintT(<<"VIOL", l, e.run, e.i, "M_reset">>))
   /\ pend' = NullEx.req
   /\ UNCHANGED nviol
 
@@ -164,7 +164,7 @@ Ack(e) ==
      /\ issued' = IF e.req.op = "AddVersion" /\ e.resp.kind = "ok" THEN issued \cup {e.resp.vid} ELSE issued
      /\ pex' = [req |-> e.req, resp |-> e.resp]
      /\ pend' = NullEx.req
-     /\ ((e.resp.kind \in {"error", "panic", "timeout"}) => PrintT(<<"VIOL", l, e.run, e.i, {"C04"}>>))
+     /\ ((e.resp.kind \in {"error", "panic", "timeout"}) => PrintT(<<"VIOL", l, e.run, e.i, "C04">>))
      /\ UNCHANGED <<extra, cfg, nviol>>
 
 (* the states the client of the in-flight request may be found in: untouched, completely applied,
@@ -198,7 +198,7 @@ Recovered(e) ==
               /\ \A d \in cl : okc(d)
               /\ \A d \in cl : KidsOf(e)[d] = post[d].versions /\ ExtraOf(e)[d] = 0
               /\ \A d \in cl : C01_State(g2[d], post[d]) /\ C11_State(g2[d], post[d])
-  IN /\ (~good => PrintT(<<"VIOL", l, e.run, e.i, {"C04"}>>))
+  IN /\ (~good => PrintT(<<"VIOL", l, e.run, e.i, "C04">>))
      /\ nviol' = nviol + (IF good THEN 0 ELSE 1)
      /\ obs' = post /\ kids' = KidsOf(e) /\ extra' = ExtraOf(e)
      /\ g' = g2
@@ -215,7 +215,7 @@ Next ==
          [] e.ev = "Intent"    -> Intent(e)
          [] e.ev = "Ack"       -> Ack(e)
          [] e.ev = "Crash"     -> UNCHANGED <<obs, kids, extra, g, issued, pex, cfg, pend, nviol>>
-         [] e.ev = "Recovered" -> IF e.st = <<>> THEN /\ PrintT(<<"VIOL", l, e.run, e.i, {"C04"}>>)
+         [] e.ev = "Recovered" -> IF e.st = <<>> THEN /\ PrintT(<<"VIOL", l, e.run, e.i, "C04">>)
                                                      /\ UNCHANGED <<obs, kids, extra, g, issued, pex, cfg, pend, nviol>>
                                   ELSE Recovered(e)
          [] OTHER              -> Judge(e)
